@@ -34,6 +34,7 @@ def settle_time(fam, n, max_delay):
 
 def variant(rng, plan):
     plan["indirectChecks"] = rng.choice([0, 1, 3])
+    plan["ports"] = rng.random() < 0.5           # every member on a port of its own
     plan["noTcp"] = rng.random() < 0.3
     plan["compression"] = rng.random() < 0.5
     if rng.random() < 0.3:
